@@ -40,10 +40,7 @@ MeshSeq ==
                Strip(SubMesh("quad", LatP, [sq \in 1..4 |-> ShiftCell(QuadCells[sq], (3 * sq) % 4)], {1, 2, 3, 4})) >>
        ELSE <<>>)
 NM == Len(MeshSeq)
-ConnTab == [i \in 1..NM |-> ConnOfMesh(MeshSeq[i])]
-MemoConn(m) == IF \E i \in 1..NM : MeshSeq[i].t = m.t /\ MeshSeq[i].kind = m.kind
-               THEN ConnTab[CHOOSE i \in 1..NM : MeshSeq[i].t = m.t /\ MeshSeq[i].kind = m.kind]
-               ELSE ConnOfMesh(m)
+ASSUME \A i \in 1..NM : ConnOfMesh(MeshSeq[i]) = ConnOfMeshSlow(MeshSeq[i])
 
 NoPar == [elements |-> <<>>, ix |-> <<>>, skips |-> 0, skipb |-> 0, fnum |-> <<>>, fden |-> <<>>, d |-> <<>>,
           axis |-> 0, c |-> 0, A |-> <<>>, b |-> <<>>, facets |-> <<>>, fv |-> <<>>, ret |-> <<>>, proj |-> <<>>,
@@ -61,25 +58,30 @@ ProjAM(tm, c) ==
 Event(op, pres, posts, par) == [a |-> "Op", op |-> op, err |-> "", pre |-> pres, post |-> posts, par |-> par,
                                 ck_pre |-> <<>>, ck_post |-> <<>>]
 
-\* ---- tag universes: full = every cell subset with a derived facet subset + every facet subset (3-D: up to two
-\* facets and everything) with a derived cell subset; small = three of each (used below compositions)
-CellsOf(i)  == 1..Len(MeshSeq[i].t)
-FacetsOf(i) == 1..Len(ConnTab[i].facets)
-FacetSubsets(i) == IF Dim(MeshSeq[i].kind) = 2 \/ Tier = "thorough" THEN SUBSET FacetsOf(i)
-                   ELSE {F \in SUBSET FacetsOf(i) : Cardinality(F) <= 2 \/ F = FacetsOf(i)}
-DerivedF(i, S) == {f \in FacetsOf(i) : (f + Cardinality(S)) % 3 = 0}
-DerivedS(i, F) == {k \in CellsOf(i) : (k + Cardinality(F)) % 2 = 0}
-TagPairs(i, small) ==
-  IF small THEN {<<{}, {}>>, <<{1}, FacetsOf(i)>>, <<CellsOf(i) \ {1}, {f \in FacetsOf(i) : f % 2 = 0}>>}
-  ELSE {<<S, DerivedF(i, S)>> : S \in SUBSET CellsOf(i)} \cup {<<DerivedS(i, F), F>> : F \in FacetSubsets(i)}
-Tagged(i, SF) == MeshSeq[i] @@ [sub |-> << [name |-> "s", ids |-> SortedSeq(SF[1])] >>,
-                                bnd |-> << [name |-> "b", ids |-> SortedSeq(SF[2])] >>]
+\* ---- tag universes: full = every cell subset with a derived facet subset + facet subsets (all of them up to 9
+\* facets, otherwise those with at most two facets, every second facet, everything) with a derived cell subset;
+\* small = three of each (used below compositions)
+CellsOf(m)  == 1..Len(m.t)
+FacetSubsets(nf) == IF nf <= 9 \/ (Tier = "thorough" /\ nf <= 12) THEN SUBSET (1..nf)
+                    ELSE {F \in SUBSET (1..nf) : Cardinality(F) <= 2} \cup {1..nf, {f \in 1..nf : f % 2 = 0}}
+DerivedF(nf, S) == {f \in 1..nf : (f + Cardinality(S)) % 3 = 0}
+DerivedS(m, F)  == {k \in CellsOf(m) : (k + Cardinality(F)) % 2 = 0}
+TagPairs(m, nf, small) ==
+  IF small THEN {<<{}, {}>>, <<{1}, 1..nf>>, <<CellsOf(m) \ {1}, {f \in 1..nf : f % 2 = 0}>>}
+  ELSE {<<S, DerivedF(nf, S)>> : S \in SUBSET CellsOf(m)} \cup {<<DerivedS(m, F), F>> : F \in FacetSubsets(nf)}
+Tagged(m, SF) == m @@ [sub |-> << [name |-> "s", ids |-> SortedSeq(SF[1])] >>,
+                       bnd |-> << [name |-> "b", ids |-> SortedSeq(SF[2])] >>]
 
 VARIABLES tm, c, depth, deep, failed, last
 vars == <<tm, c, depth, deep, failed, last>>
 
-Init == \E i \in 1..NM : \E dp \in BOOLEAN : \E SF \in TagPairs(i, dp) :
-          /\ tm = Tagged(i, SF) /\ c = ConnTab[i] /\ depth = 0 /\ deep = dp /\ failed = {} /\ last = "init"
+\* depth -1: the derived tables of the untagged mesh are computed once and live in the state (c)
+Only == IF "ONLY" \in DOMAIN IOEnv /\ IOEnv.ONLY # "" THEN {CHOOSE i \in 1..NM : ToString(i) = IOEnv.ONLY} ELSE 1..NM
+Init == \E i \in Only : \E dp \in BOOLEAN :
+          /\ tm = MeshSeq[i] /\ c = ConnOfMesh(MeshSeq[i]) /\ depth = -1 /\ deep = dp /\ failed = {} /\ last = "init"
+Tag  == /\ depth = -1
+        /\ \E SF \in TagPairs(tm, Len(c.facets), deep) : tm' = Tagged(tm, SF)
+        /\ depth' = 0 /\ last' = "tag" /\ UNCHANGED <<c, deep, failed>>
 
 \* a second operand for +: the same cells shifted by the extent of the mesh along x (they touch along a side)
 Width(m) == MaxSet({m.p[v][1] : v \in DOMAIN m.p}) - MinSet({m.p[v][1] : v \in DOMAIN m.p})
@@ -89,14 +91,16 @@ Shifted(m) == [kind |-> m.kind, t |-> m.t, sub |-> <<>>, bnd |-> <<>>,
 WithUnused(m) == [m EXCEPT !.p = <<[i \in DOMAIN m.p[1] |-> -1]>> \o m.p \o <<[i \in DOMAIN m.p[1] |-> -2]>>,
                            !.t = [k \in DOMAIN m.t |-> [i \in DOMAIN m.t[k] |-> m.t[k][i] + 1]]]
 
-Subsets(n) == SUBSET (1..n) \ {{}}
+\* every non-empty cell subset up to 6 cells; bigger meshes (results of a first operation): a fixed family
+Subsets(n) == IF n <= 6 THEN SUBSET (1..n) \ {{}}
+              ELSE {{1}, {n}, {1, n}, {k \in 1..n : k % 2 = 0}, {k \in 1..n : k % 3 # 0}, 1..(n \div 2), 2..n}
 Apply(op, post, cpost, ev) == /\ tm' = post /\ c' = cpost /\ depth' = depth + 1 /\ last' = op
                               /\ failed' = Failed(SurgeryClauses(ev)) /\ UNCHANGED deep
 DoRestrict ==
   \E E \in Subsets(Len(tm.t)) : \E rev \in BOOLEAN :
      LET el == IF rev THEN Reverse(SortedSeq(E)) ELSE SortedSeq(E)
          r  == RestrictImpl(tm, c, el)
-         c2 == MemoConn(r.tm)
+         c2 == ConnOfMesh(r.tm)
      IN /\ (rev => Cardinality(E) = 2)
         /\ Apply("restrict", r.tm, c2, Event("restrict", <<ProjAM(tm, c)>>, <<ProjAM(r.tm, c2)>>,
                                              [NoPar EXCEPT !.elements = el, !.ix = r.ix]))
@@ -104,39 +108,41 @@ DoRemove ==
   \E E \in Subsets(Len(tm.t)) \ {1..Len(tm.t)} :
      LET el == SortedSeq(E)
          r  == RemoveElementsImpl(tm, c, el)
-         c2 == MemoConn(r.tm)
+         c2 == ConnOfMesh(r.tm)
      IN Apply("remove_elements", r.tm, c2, Event("remove_elements", <<ProjAM(tm, c)>>, <<ProjAM(r.tm, c2)>>,
                                                 [NoPar EXCEPT !.elements = el]))
 DoAdd ==
   LET m2 == Shifted(tm)
       r  == AddImpl(tm, m2)
-      c2 == MemoConn(r)
+      c2 == ConnOfMesh(r)
   IN Apply("add", r, c2, Event("add", <<ProjAM(tm, c), ProjAM(m2, c)>>, <<ProjAM(r, c2)>>, NoPar))
 DoUnused ==
-  LET m1 == WithUnused(tm)                  \* same cells, same facet numbering (order-preserving shift of the ids)
+  LET m1 == WithUnused(tm)
+      c1 == ConnOfMesh(m1)
       r  == RemoveUnusedNodesImpl(m1)
-      c2 == MemoConn(r)
-  IN Apply("remove_unused_nodes", r, c2, Event("remove_unused_nodes", <<ProjAM(m1, c)>>, <<ProjAM(r, c2)>>, NoPar))
+      c2 == ConnOfMesh(r)
+  IN Apply("remove_unused_nodes", r, c2, Event("remove_unused_nodes", <<ProjAM(m1, c1)>>, <<ProjAM(r, c2)>>, NoPar))
 DoDup ==
   /\ WithDup
   /\ LET r  == RemoveDuplicateNodesImpl(tm)
-         c2 == MemoConn(r)
+         c2 == ConnOfMesh(r)
      IN Apply("remove_duplicate_nodes", r, c2,
               Event("remove_duplicate_nodes", <<ProjAM(tm, c)>>, <<ProjAM(r, c2)>>, NoPar))
 DoTri ==
   /\ tm.kind = "quad"
   /\ \E style \in {"", "x"} :
-       LET r  == ToMeshTriImpl(tm, c, style, MemoConn)
+       LET r  == ToMeshTriImpl(tm, c, style, ConnOfMesh)
            op == IF style = "x" THEN "to_meshtri_x" ELSE "to_meshtri"
        IN Apply(op, r.tm, r.c, Event(op, <<ProjAM(tm, c)>>, <<ProjAM(r.tm, r.c)>>, NoPar))
 DoTet ==
   /\ tm.kind \in {"hex", "wedge"}
   /\ LET r  == ToMeshTetImpl(tm)
-         c2 == MemoConn(r)
+         c2 == ConnOfMesh(r)
      IN Apply("to_meshtet", r, c2, Event("to_meshtet", <<ProjAM(tm, c)>>, <<ProjAM(r, c2)>>, NoPar))
 
-Next == /\ depth = 0 \/ (depth = 1 /\ deep)
-        /\ DoRestrict \/ DoRemove \/ DoAdd \/ DoUnused \/ DoDup \/ DoTri \/ DoTet
+Next == \/ Tag
+        \/ /\ depth = 0 \/ (depth = 1 /\ deep)
+           /\ DoRestrict \/ DoRemove \/ DoAdd \/ DoUnused \/ DoDup \/ DoTri \/ DoTet
 Spec == Init /\ [][Next]_vars
 
 ClausesHold == failed = {}
